@@ -1,7 +1,7 @@
 (* C16 - nesting bombs cannot exhaust the stack (the part that is logic: depth, not bytes of stack).
    The scanner state carries a ghost high-water mark of the recursion level; the Go call depth is two
    frames (consumeAny + consumeArray/consumeObject) per level. *)
-From Verif Require Import Base.Bytes Model.Json Model.Detect Gen.Tables Proofs.JsonDepth.
+From Verif Require Import Base.Bytes Model.Json Model.Detect Gen.Tables Spec.JsonGrammar Proofs.JsonDepth Proofs.JsonBomb.
 
 (* for every input, query and token table: the recursion level never exceeds the cap of the state in use *)
 Theorem C16_depth_bounded :
@@ -27,5 +27,32 @@ Theorem C16_array_bomb_rejected :
     json_helper maxrec tk qs want (repeat 91%N n ++ rest) limit = false.
 Proof. exact array_bomb_rejected. Qed.
 Print Assumptions C16_array_bomb_rejected.
+
+(* bombs of any shape: more than cap+1 containers opened in a row - arrays and objects in any mixture, any keys,
+   any layout - are not reported as JSON, whole or truncated, whatever follows *)
+Theorem C16_bomb_rejected :
+  forall maxrec qs tk, maxrec <> 0 -> forall want w0 os rest limit,
+    WS w0 -> Forall Opener os -> maxrec + 2 <= length os ->
+    json_helper maxrec tk qs want (w0 ++ concat os ++ rest) limit = false.
+Proof. exact bomb_rejected. Qed.
+Print Assumptions C16_bomb_rejected.
+
+(* the detectors of the tree: 4098 openers suffice *)
+Theorem C16_detectors_reject_bombs :
+  forall q want w0 os rest limit, WS w0 -> Forall Opener os -> 4098 <= length os ->
+    json_family q want (w0 ++ concat os ++ rest) limit = false.
+Proof.
+  intros q want w0 os rest limit Hw Hos Hn. unfold json_family.
+  apply (bomb_rejected maxrec (queries_of q) tokens); try assumption. discriminate.
+Qed.
+Print Assumptions C16_detectors_reject_bombs.
+
+Example C16_openers : Forall Opener [b "["; b "{""k"": "; b "[ "; b "{ ""a\""b"" :"].
+Proof.
+  repeat constructor.
+  - apply (Op_obj [] (b "k""") [] [32%N]); repeat constructor; discriminate.
+  - apply (Op_obj [32%N] (b "a\""b""") [32%N] []); try (repeat constructor; fail).
+    apply RS_char; [discriminate|discriminate|]. apply RS_esc; [reflexivity|]. apply RS_char; [discriminate|discriminate|]. constructor.
+Qed.
 
 Example C16_small_cap : p_hw (parse 3 tokens [] (b "[[[[[[[[1]]]]]]]]")) = 3. Proof. vm_compute. reflexivity. Qed.
